@@ -1,10 +1,196 @@
 import PhysisModel.Base.Proto
+import PhysisModel.Spec.Excel
+import PhysisModel.Model.Exd
+import PhysisModel.Model.ExcelRootList
+/-!
+Driver for C05.  Case grammar (single spaces, `-` = empty list):
+
+* `row <sub 0|1> <version> <dataOffset> <cols> <pages> <langs> <rowCount> <rows> <query id>`
+  * cols  `code:offset,…`   pages `start:count,…`   langs `code,…`
+  * rows  `id=cells|cells;id=…`, cells `tok,tok…`, tok one of `s:<hex>` `b:0|1` `i8:` `u8:` `i16:`
+    `u16:` `i32:` `u32:` `f:<u32 bit pattern>` `i64:` `u64:` (decimal, signed where signed)
+  * input for the real code: `row <exh hex> <exd hex> <id>` (Spec encoders); answer: `none` or the
+    sub-rows `cells|cells…` in the token syntax above
+* `exh <sub> <version> <dataOffset> <cols> <pages> <langs> <rowCount>` — header round trip; answer
+  `<dataOffset> <rowCount> <cols> <pages> <langs>` (the public fields)
+* `fname <name hex> <lang code> <start id>` — page file name, as hex
+* `names <version> <name hex>:<id>,…` — root list; input `exl <hex of encodeRootList>`; answer
+  `<version> <name hex>:<id>,…` (what `get_all_sheet_names` / `read_excel_sheet_header` iterate over)
+-/
 namespace Physis.Driver.C05
-open Physis Physis.Proto
+open Physis Physis.Proto Physis.Spec.Excel
+
+def colTypeOfCode (c : Nat) : Option ColType :=
+  match c with
+  | 0x0 => some .string | 0x1 => some .bool | 0x2 => some .int8 | 0x3 => some .uint8
+  | 0x4 => some .int16 | 0x5 => some .uint16 | 0x6 => some .int32 | 0x7 => some .uint32
+  | 0x9 => some .float32 | 0xA => some .int64 | 0xB => some .uint64
+  | n => if h : 0x19 ≤ n ∧ n < 0x21 then some (.packedBool ⟨n - 0x19, by omega⟩) else none
+
+def langOfCode : Nat → Option Lang
+  | 0 => some .none | 1 => some .ja | 2 => some .en | 3 => some .de | 4 => some .fr
+  | 5 => some .chs | 6 => some .cht | 7 => some .ko | _ => none
+
+def splitList (s : String) (sep : String) : List String := if s == "-" then [] else s.splitOn sep
+
+def pair (s : String) (sep : String) : Option (String × String) :=
+  match s.splitOn sep with
+  | [a, b] => some (a, b)
+  | _ => none
+
+def natLt (s : String) (bound : Nat) : Option Nat := do
+  let n ← s.toNat?
+  if n < bound then some n else none
+
+def intIn (s : String) (bits : Nat) : Option Nat := do
+  let i ← s.toInt?
+  if i < -(2 ^ (bits - 1) : Int) ∨ i ≥ (2 ^ (bits - 1) : Int) then none
+  else if i ≥ 0 then some i.toNat else some (2 ^ bits - i.natAbs)
+
+def parseCell (t : String) : Option Cell := do
+  let (k, v) ← pair t ":"
+  match k with
+  | "s" => (Bytes.ofHexFast v).map .str
+  | "b" => if v == "1" then some (.bool true) else if v == "0" then some (.bool false) else none
+  | "i8" => (intIn v 8).map (fun n => .i8 (UInt8.ofNat n))
+  | "u8" => (natLt v (2 ^ 8)).map (fun n => .u8 (UInt8.ofNat n))
+  | "i16" => (intIn v 16).map (fun n => .i16 (UInt16.ofNat n))
+  | "u16" => (natLt v (2 ^ 16)).map (fun n => .u16 (UInt16.ofNat n))
+  | "i32" => (intIn v 32).map (fun n => .i32 (UInt32.ofNat n))
+  | "u32" => (natLt v (2 ^ 32)).map (fun n => .u32 (UInt32.ofNat n))
+  | "f" => (natLt v (2 ^ 32)).map (fun n => .f32 (UInt32.ofNat n))
+  | "i64" => (intIn v 64).map (fun n => .i64 (UInt64.ofNat n))
+  | "u64" => (natLt v (2 ^ 64)).map (fun n => .u64 (UInt64.ofNat n))
+  | _ => none
+
+def signed (n bits : Nat) : Int := if n < 2 ^ (bits - 1) then (n : Int) else (n : Int) - (2 ^ bits : Int)
+
+def showCell : Cell → String
+  | .str s => "s:" ++ Bytes.toHex s
+  | .bool b => if b then "b:1" else "b:0"
+  | .i8 v => "i8:" ++ toString (signed v.toNat 8)
+  | .u8 v => "u8:" ++ toString v.toNat
+  | .i16 v => "i16:" ++ toString (signed v.toNat 16)
+  | .u16 v => "u16:" ++ toString v.toNat
+  | .i32 v => "i32:" ++ toString (signed v.toNat 32)
+  | .u32 v => "u32:" ++ toString v.toNat
+  | .f32 v => "f:" ++ toString v.toNat
+  | .i64 v => "i64:" ++ toString (signed v.toNat 64)
+  | .u64 v => "u64:" ++ toString v.toNat
+
+def showData : Exd.ColumnData → String
+  | .string s => "s:" ++ Bytes.toHex s
+  | .bool b => if b then "b:1" else "b:0"
+  | .int8 v => "i8:" ++ toString (signed v.toNat 8)
+  | .uint8 v => "u8:" ++ toString v.toNat
+  | .int16 v => "i16:" ++ toString (signed v.toNat 16)
+  | .uint16 v => "u16:" ++ toString v.toNat
+  | .int32 v => "i32:" ++ toString (signed v.toNat 32)
+  | .uint32 v => "u32:" ++ toString v.toNat
+  | .float32 v => "f:" ++ toString v.toNat
+  | .int64 v => "i64:" ++ toString (signed v.toNat 64)
+  | .uint64 v => "u64:" ++ toString v.toNat
+
+def showSubs {α} (f : α → String) (subs : List (List α)) : String :=
+  "|".intercalate (subs.map (fun cells => ",".intercalate (cells.map f)))
+
+def parseRow (t : String) : Option Row := do
+  let (i, rest) ← pair t "="
+  let id ← natLt i (2 ^ 32)
+  let subs ← (rest.splitOn "|").mapM (fun sub => (sub.splitOn ",").mapM parseCell)
+  some { id := UInt32.ofNat id, subs }
+
+def parseSchema (sub ver dof cols pages langs rc : String) : Option Schema := do
+  let subrows ← if sub == "1" then some true else if sub == "0" then some false else none
+  let version ← natLt ver (2 ^ 16)
+  let dataOffset ← natLt dof (2 ^ 16)
+  let columns ← (splitList cols ",").mapM (fun c => do
+    let (a, b) ← pair c ":"
+    let ty ← colTypeOfCode (← a.toNat?)
+    let off ← natLt b (2 ^ 16)
+    some ({ ty, offset := UInt16.ofNat off } : Column))
+  let pages ← (splitList pages ",").mapM (fun c => do
+    let (a, b) ← pair c ":"
+    some ({ startId := UInt32.ofNat (← natLt a (2 ^ 32)), rowCount := UInt32.ofNat (← natLt b (2 ^ 32)) } : Page))
+  let languages ← (splitList langs ",").mapM (fun c => do langOfCode (← c.toNat?))
+  let rowCount ← natLt rc (2 ^ 32)
+  some { version := UInt16.ofNat version, dataOffset := UInt16.ofNat dataOffset, columns, pages,
+         languages, rowCount := UInt32.ofNat rowCount, subrows }
+
+def showExhSpec (s : Schema) : String :=
+  s!"{s.dataOffset.toNat} {s.rowCount.toNat} " ++
+  (if s.columns.isEmpty then "-" else ",".intercalate (s.columns.map (fun c => s!"{c.ty.code.toNat}:{c.offset.toNat}"))) ++ " " ++
+  (if s.pages.isEmpty then "-" else ",".intercalate (s.pages.map (fun p => s!"{p.startId.toNat}:{p.rowCount.toNat}"))) ++ " " ++
+  (if s.languages.isEmpty then "-" else ",".intercalate (s.languages.map (fun l => toString l.code.toNat)))
+
+def showExhModel (e : Exh.EXH) : String :=
+  s!"{e.header.dataOffset.toNat} {e.header.rowCount.toNat} " ++
+  (if e.columnDefinitions.isEmpty then "-" else ",".intercalate (e.columnDefinitions.map (fun c => s!"{c.dataType.code.toNat}:{c.offset.toNat}"))) ++ " " ++
+  (if e.pages.isEmpty then "-" else ",".intercalate (e.pages.map (fun p => s!"{p.startId.toNat}:{p.rowCount.toNat}"))) ++ " " ++
+  (if e.languages.isEmpty then "-" else ",".intercalate (e.languages.map (fun l => toString l.code.toNat)))
+
+def showR (r : Exd.R (List (List Exd.ColumnData))) : String :=
+  match r with
+  | .ok subs => showSubs showData subs
+  | .error .none => "none"
+  | .error .panic => "panic"
 
 /-- one case line in, one answer line out (see `Base/Proto.lean`) -/
 def handle (line : String) : String :=
   match fields line with
+  | ["row", sub, ver, dof, cols, pages, langs, rc, rows, q] =>
+    match parseSchema sub ver dof cols pages langs rc, (splitList rows ";").mapM parseRow, natLt q (2 ^ 32) with
+    | some s, some rs, some qn =>
+      if decide (WFschema s) && decide (WFrows s rs) then
+        let q := UInt32.ofNat qn
+        let exh := encodeExh s
+        let exd := encodeExd s rs
+        let hit := rs.find? (fun r => r.id == q)
+        let expected := match hit with
+          | some r => showSubs showCell r.subs
+          | none => "none"
+        let tags := match hit with
+          | some r => if singleSubrow s r then ["kf:exd.single-subrow"] else []
+          | none => []
+        let model := match Exh.fromExisting exh, Exd.fromExisting exd with
+          | some h, some d => showR (Exd.readRow d h q)
+          | _, _ => "parse-none"
+        answer s!"row {Bytes.toHex exh} {Bytes.toHex exd} {qn}" expected tags (some model)
+      else bad
+    | _, _, _ => bad
+  | ["exh", sub, ver, dof, cols, pages, langs, rc] =>
+    match parseSchema sub ver dof cols pages langs rc with
+    | some s =>
+      if decide (WFschema s) then
+        let exh := encodeExh s
+        let model := match Exh.fromExisting exh with
+          | some h => showExhModel h
+          | none => "none"
+        answer s!"exh {Bytes.toHex exh}" (showExhSpec s) [] (some model)
+      else bad
+    | none => bad
+  | ["fname", name, lang, start] =>
+    match Bytes.ofHexFast name, lang.toNat?.bind langOfCode, natLt start (2 ^ 32) with
+    | some n, some l, some st =>
+      let expected := pageFileName n l { startId := UInt32.ofNat st, rowCount := 0 }
+      let model := match Exh.Language.ofCode l.code with
+        | some ml => Bytes.toHex (Exd.calculateFilename n ml { startId := UInt32.ofNat st, rowCount := 0 })
+        | none => "none"
+      answer "=" (Bytes.toHex expected) [] (some model)
+    | _, _, _ => bad
+  | ["names", ver, ents] =>
+    match ver.toInt?, (splitList ents ",").mapM (fun e => do
+        let (n, i) ← pair e ":"
+        some ((← Bytes.ofHexFast n), (← i.toInt?))) with
+    | some v, some es =>
+      if decide (WFrootList v es) then
+        let showEs := fun (l : List (Bytes × Int)) =>
+          if l.isEmpty then "-" else ",".intercalate (l.map (fun e => s!"{Bytes.toHex e.1}:{e.2}"))
+        let m := ExcelRootList.fromExisting (encodeRootList v es)
+        answer s!"exl {Bytes.toHex (encodeRootList v es)}" s!"{v} {showEs es}" []
+          (some s!"{m.version} {showEs m.entries}")
+      else bad
+    | _, _ => bad
   | _ => bad
 
 end Physis.Driver.C05
